@@ -96,6 +96,7 @@ impl Group for C10Sim {
         let len = rng.range(6, if tier == Tier::Quick { 14 } else { 30 }) as usize;
         let mut ops = gen_ops(rng, len);
         if rng.chance(1, 4) { ops.insert(0, "world perm".to_string()); }
+        else if rng.chance(1, 10) { ops.insert(0, "world nocp".to_string()); }
         else if rng.chance(1, 6) {
             let mut pre = vec!["world fresh".to_string()];
             if rng.chance(1, 3) { pre.push("act".to_string()); }
